@@ -53,6 +53,12 @@ Proof.
 Qed.
 End TMap.
 
+Lemma premove_eq {X} k (xs : list X) : premove k xs = firstn (Z.to_nat k) xs ++ skipn (S (Z.to_nat k)) xs.
+Proof.
+  unfold premove. rewrite znth_eq. destruct (nth_error xs (Z.to_nat k)) eqn:E; [reflexivity|]. apply nth_error_None in E.
+  rewrite firstn_all2, skipn_all2 by lia. now rewrite app_nil_r.
+Qed.
+
 Lemma F2_impl {X Y} (R1 R2 : X -> Y -> Prop) l l' : (forall a b, R1 a b -> R2 a b) -> Forall2 R1 l l' -> Forall2 R2 l l'.
 Proof. intros Hi H. induction H; constructor; auto. Qed.
 Lemma all3_map {X Y W} (P : X -> Y -> W -> bool) (g : X -> Y) ts want :
@@ -94,12 +100,24 @@ Qed.
 Lemma inv_E : Inv E [].
 Proof. repeat split. constructor. Qed.
 
-Lemma inv_single_gen x v p : Fresh size elem agg aggf Pending x -> elem x = v -> Inv (single x p) [(p, v)].
+Lemma inv_single_gen x v p : Detached size elem agg aggf Pending x -> elem x = v -> Inv (single x p) [(p, v)].
 Proof.
   intros Hf <-. repeat split; simpl; auto. now apply Rep_single.
 Qed.
-Lemma inv_single v p : Inv (single (mk v) p) [(p, v)].
-Proof. apply inv_single_gen; auto. Qed.
+(** the caller's modifications [ms] of an item it holds: still detached (any pending tag), element acted upon *)
+Lemma acts_cacts ms : forall v, acts act (map md ms) v = cacts actc ms v.
+Proof. induction ms as [|m ms IH]; intros v; [reflexivity|]. unfold acts, cacts in *. simpl. now rewrite md_act, IH. Qed.
+Lemma mods_detached x v ms : Detached size elem agg aggf Pending x -> elem x = v ->
+  Detached size elem agg aggf Pending (mods modify (map md ms) x) /\ elem (mods modify (map md ms) x) = cacts actc ms v.
+Proof.
+  intros Hd <-. destruct (Detached_mods _ _ _ _ _ _ _ _ _ LAW (map md ms) x Hd) as [Hd' He].
+  split; [exact Hd'|]. now rewrite He, acts_cacts.
+Qed.
+Lemma mk_detached v ms : Detached size elem agg aggf Pending (mods modify (map md ms) (mk v))
+  /\ elem (mods modify (map md ms) (mk v)) = cacts actc ms v.
+Proof. apply mods_detached; auto. apply Fresh_Detached, mk_fresh. Qed.
+Lemma inv_single v ms p : Inv (single (mods modify (map md ms) (mk v)) p) [(p, cacts actc ms v)].
+Proof. destruct (mk_detached v ms). apply inv_single_gen; auto. Qed.
 
 Lemma inv_merge a b pa pb : Inv a pa -> Inv b pb -> Inv (merge update push a None b None) (pa ++ pb).
 Proof.
@@ -165,8 +183,9 @@ Proof.
   - now rewrite <- drop_map.
 Qed.
 
-(** insert_at of ANY fresh item (a newly made one, or the item object that remove_at returned) *)
-Lemma inv_insert_gen t k x v p pxs : Inv t pxs -> Fresh size elem agg aggf Pending x -> elem x = v ->
+(** insert_at of ANY detached item (a newly made one, or the item object that remove_at returned, possibly
+    modified by the caller: any pending tag) *)
+Lemma inv_insert_gen t k x v p pxs : Inv t pxs -> Detached size elem agg aggf Pending x -> elem x = v ->
   Inv (insert_at update push size t k x p) (firstn (Z.to_nat k) pxs ++ (p, v) :: skipn (Z.to_nat k) pxs).
 Proof.
   intros HI Hf Hv. unfold insert_at. destruct (split_at update push size t None k) as [l r] eqn:ES.
@@ -174,9 +193,10 @@ Proof.
   change ((p, v) :: skipn (Z.to_nat k) pxs) with ([(p, v)] ++ skipn (Z.to_nat k) pxs). rewrite app_assoc.
   apply inv_merge; auto. apply inv_merge; auto. now apply inv_single_gen.
 Qed.
-Lemma inv_insert t k v p pxs : Inv t pxs ->
-  Inv (insert_at update push size t k (mk v) p) (firstn (Z.to_nat k) pxs ++ (p, v) :: skipn (Z.to_nat k) pxs).
-Proof. intros HI. apply inv_insert_gen; auto. Qed.
+Lemma inv_insert t k v ms p pxs : Inv t pxs ->
+  Inv (insert_at update push size t k (mods modify (map md ms) (mk v)) p)
+      (firstn (Z.to_nat k) pxs ++ (p, cacts actc ms v) :: skipn (Z.to_nat k) pxs).
+Proof. intros HI. destruct (mk_detached v ms). apply inv_insert_gen; auto. Qed.
 
 Lemma inv_remove t k pxs : Inv t pxs ->
   Inv (fst (remove_at update push size t k)) (firstn (Z.to_nat k) pxs ++ skipn (S (Z.to_nat k)) pxs).
@@ -223,7 +243,7 @@ Proof.
 Qed.
 
 (** ---------- the machine against [pstep] ---------- *)
-Notation cv := (conv mk md).
+Notation cv := (conv modify mk md).
 Lemma step_inv st pst ps o pst' ps' :
   Forall2 Inv st pst -> pstep actc pst ps o = Some (pst', ps') ->
   Forall2 Inv (fst (fst (step update push size modify elem agg st ps (cv o)))) pst'
@@ -242,7 +262,7 @@ Proof.
     destruct (take1 i st) as [[t rest]|], (take1 i pst) as [[xs xrest]|]; try contradiction.
     + destruct H1 as (Ht & Hr). destruct (split_at update push size t None k) as [a b] eqn:ES.
       injection HS as <- <-. split; auto. destruct (inv_split_at t k xs a b Ht ES) as [Ha Hb].
-      apply Forall2_app; auto.
+      rewrite zfirstn_eq, zskipn_eq. apply Forall2_app; auto.
     + injection HS as <- <-. auto.
   - pose proof (F2_take1 Inv st pst i H) as H1.
     destruct (take1 i st) as [[t rest]|], (take1 i pst) as [[xs xrest]|]; try contradiction.
@@ -255,11 +275,11 @@ Proof.
   - pose proof (F2_nth Inv st pst i H) as Hn.
     destruct (nth_error st i) as [t|], (nth_error pst i) as [xs|]; simpl in Hn; try contradiction.
     + destruct (next_prio ps) as [p ps1]. injection HS as <- <-. split; auto.
-      apply F2_replace; auto. now apply inv_insert.
+      rewrite zfirstn_eq, zskipn_eq. apply F2_replace; auto. now apply inv_insert.
     + injection HS as <- <-. auto.
   - pose proof (F2_nth Inv st pst i H) as Hn.
     destruct (nth_error st i) as [t|], (nth_error pst i) as [xs|]; simpl in Hn; try contradiction.
-    + injection HS as <- <-. pose proof (inv_remove t k xs Hn) as HR.
+    + rewrite premove_eq in HS. injection HS as <- <-. pose proof (inv_remove t k xs Hn) as HR.
       destruct (remove_at update push size t k) as [t' res]. simpl in *. split; auto. apply F2_replace; auto.
     + injection HS as <- <-. auto.
   - pose proof (F2_nth Inv st pst i H) as Hn.
@@ -289,7 +309,7 @@ Proof.
     pose proof (inv_remove t k xs Hi) as HR.
     destruct Hi as (_ & HRep & _).
     destruct (remove_at update push size t k) as [t' res] eqn:ER. cbn [fst] in HR.
-    destruct (remove_at_rep _ _ _ _ _ _ _ _ _ LAW t k _ t' res HRep ER) as (_ & Hres & Hfr).
+    destruct (remove_at_rep _ _ _ _ _ _ _ _ _ LAW t k _ t' res HRep ER) as (_ & Hres & Hfr). rewrite znth_eq in HS.
     destruct (nth_error xs (Z.to_nat k)) as [pvx|] eqn:En.
     + rewrite (map_nth_error snd _ _ En) in Hres.
       destruct res as [x|]; simpl in Hres; [|discriminate]. injection Hres as Hv.
@@ -300,7 +320,9 @@ Proof.
         destruct (nth_error (replace_nth i (firstn (Z.to_nat k) xs ++ skipn (S (Z.to_nat k)) xs) pst) j) as [ys|];
         simpl in Hj1; try contradiction.
       * destruct (next_prio ps) as [p ps1]. injection HS as <- <-. split; auto.
-        apply F2_replace; auto. apply inv_insert_gen; auto.
+        rewrite zfirstn_eq, zskipn_eq. apply F2_replace; auto.
+        destruct (mods_detached x (snd pvx) ms (Fresh_Detached _ _ _ _ _ _ (Hfr x eq_refl)) Hv) as [Hd He].
+        apply inv_insert_gen; auto.
       * injection HS as <- <-. auto.
     + apply nth_error_None in En.
       assert (En' : nth_error (map snd xs) (Z.to_nat k) = None) by (apply nth_error_None; now rewrite map_length).
